@@ -130,7 +130,7 @@ class Endpoint(SubCheck):
             facts = FACT + [0.25, 0.75, 1.5, 5.0, 100.0]
             starts = STARTS + [(-7.5, 11.25)]
         self.p = Product(starts, dirs, mags, facts, facts, rots, FLAGS)
-        self.entries = ENTRIES + (["arc-complex", "arc-kw"] if tier == "thorough" else [])
+        self.entries = ENTRIES + ["arc-complex", "arc-kw"]
         self.seed = seed
         self.bounds = dict(starts=len(starts), dirs=len(dirs), mags=len(mags), factors=len(facts), rotations=len(rots),
                            flags=4, entries=self.entries)
@@ -284,6 +284,22 @@ class Degenerate(SubCheck):
                 if bb is not None and any(abs(a - b) > tol for a, b in zip(bb, (s[0], s[1], s[0], s[1]))):
                     out.fail("coincident endpoints: bbox() must be the point", (s[0], s[1], s[0], s[1]), bb,
                              kind="coincident-bbox", **tags)
+            # the degenerate arc is still that line / point after an in-place map (its points are its own)
+            M = (2.0, 0.5, -1.0, 3.0, 5.0, -7.0)
+            img = lambda q: (M[0] * q[0] + M[2] * q[1] + M[4], M[1] * q[0] + M[3] * q[1] + M[5])
+            arc *= self.svg.Matrix(*M)
+            s2, e2 = img(s), img(e)
+            tol2 = 1e-11 * max(1e-300, abs(s2[0]), abs(s2[1]), abs(e2[0]), abs(e2[1]), scale)
+            for t in ts:
+                p = pt(arc.point(t))
+                q = (s2[0] + (e2[0] - s2[0]) * t, s2[1] + (e2[1] - s2[1]) * t)
+                if abs(p[0] - q[0]) > tol2 or abs(p[1] - q[1]) > tol2:
+                    out.fail("degenerate arc after 'arc *= M': point(%g) must be the image of the line / point" % t, q, p,
+                             kind="degenerate-mapped", t=t, **tags)
+                    break
+            if abs(arc.start.x - s2[0]) > tol2 or abs(arc.start.y - s2[1]) > tol2 or abs(arc.end.x - e2[0]) > tol2 or abs(arc.end.y - e2[1]) > tol2:
+                out.fail("degenerate arc after 'arc *= M': end points", [s2, e2], [pt(arc.start), pt(arc.end)], kind="degenerate-mapped",
+                         **tags)
         except Exception as ex:  # noqa
             out.fail("%s raised %s" % (case["entry"], type(ex).__name__), None, repr(ex), kind="exception", **tags)
         out.traces += 1
